@@ -435,7 +435,7 @@ def cex_search(spec, tier, variant, target, harness_text, root, workdir, unwind,
     # same overlay as the proof build (contract and loop-contract text stay in place so that line numbers are
     # identical) but nothing is enforced and loop contracts are not applied
     b = prove.build_unit(sp, tier, workdir, root, variant_defs=vdefs, cex_mode=True, extra_defs=cex_defs(spec))
-    base = ['cbmc', '--json-ui', '--object-bits', str(spec['object_bits'] or 12),
+    base = ['cbmc', '--json-ui', '--object-bits', str(spec['object_bits'] or 12), '--slice-formula',
             '--unwind', str(unwind), '--unwindset', 'vf_input.0:%d' % 4100]
     base += [x for x in spec['cbmc_flags'] if x not in ('--stop-on-fail',)]
 
